@@ -24,7 +24,7 @@ template <class G> struct C04F {
   template <class A, class Bm> void same(const char* fn, const Eigen::MatrixBase<A>& got, const Eigen::MatrixBase<Bm>& canon, const std::string& key) {
     bool eq = vf::bits_equal(got, canon);
     if (eq) R.count("bit_identical");
-    ref::Real d = eq ? 0 : (ref::Real)(got - canon).cwiseAbs().maxCoeff() / std::max((ref::Real)1, (ref::Real)canon.cwiseAbs().maxCoeff());
+    ref::Real d = eq ? 0 : (ref::Real)vf::maxabs((got - canon)) / std::max((ref::Real)1, (ref::Real)vf::maxabs(canon));
     if (!(d == d)) d = INFINITY;
     ++R.transitions;
     if (!R.judge(std::string("free_") + fn, d, B::B1, key))
